@@ -12,7 +12,7 @@ from ..values import (Const, Sym, CRef, FRef, MRef, Bound, Obj, Tup, App, Coll,
                       New, Raise, walk)
 from ..interp import Interp, Hooks, is_private_helper, prologue_helpers
 from ..formulas import (LANGS, signatures, FormulaHooks, new_instance)
-from ..report import Finding, RuleResult, floor
+from ..report import Finding, RuleResult, floor, Attempts
 
 PROP = 'C08'
 
@@ -580,8 +580,9 @@ def _derived_from(v, root):
 
 def run(prog, tier, seed):
     sigs = signatures(prog)
-    results = [rule_sort1(prog, sigs), rule_sort2(prog, sigs),
-               rule_sort3(prog, sigs), rule_sort4(prog)]
+    T = Attempts()
+    results = T.results(T(rule_sort1, prog, sigs), T(rule_sort2, prog, sigs),
+                        T(rule_sort3, prog, sigs), T(rule_sort4, prog))
     expl = ('Static decision of sort membership: (1) the resolved __init__ '
             'and required operand class of each of the 44 alphabet classes '
             '(C3 MRO rebuilt from source) give, per operator, the set of '
@@ -597,4 +598,4 @@ def run(prog, tier, seed):
     assumptions = ['no reflection / monkey patching of the class lattice',
                    'documented syntax transcribed by hand into DOC_SYNTAX',
                    'arity is not part of the armed rule (observation only)']
-    return results, expl, assumptions, {}
+    return results, expl, assumptions, T.extra()
